@@ -58,7 +58,7 @@ pub fn gen_inst(r: &mut Rng, max_c: usize, max_p: usize, rooms_mode: usize) -> I
             }
         }
         let fixed = r.chance(1, 5);
-        let (fbits, obits) = if r.chance(1, 2) {
+        let (fbits, obits) = if r.chance(if rooms_mode == 3 { 1 } else { 4 }, 8) {
             (1.0f32.to_bits(), 0.0f32.to_bits())
         } else {
             (r.pick(&FACTORS).to_bits(), if r.chance(1, 2) { 0.0f32.to_bits() } else { r.pick(&OFFSETS).to_bits() })
@@ -139,7 +139,7 @@ pub fn gen_inst(r: &mut Rng, max_c: usize, max_p: usize, rooms_mode: usize) -> I
         }
     }
     let rooms = match rooms_mode {
-        0 => None,
+        0 | 3 => None,
         1 => Some(gen_rooms(r, nc, &courses)),
         _ => {
             if r.chance(1, 2) {
